@@ -252,3 +252,64 @@ def _classify_missing(rig, n):
     if "completed" not in names:
         return "C15.completed_node_without_completed_state"
     return None
+
+
+# ------------------------------------------------------------------------------------------------
+# request-origin and cancel-failure instrumentation (wrappers record and delegate, results unchanged)
+USER_IIDS: set[str] = set()            # instance ids of requests created by execute_control_command_from_user
+CANCEL_MARK_FAILS: list[tuple] = []    # (tick, instance_id | None, node class, message) - mark_cancelled raised
+_req_hooks = False
+
+
+def install_request_hooks():
+    global _req_hooks
+    if _req_hooks:
+        return
+    _req_hooks = True
+    from openpectus.lang.exec.commands import CommandRequest
+    from openpectus.lang.exec.tracking import Tracking
+
+    orig_from_user = CommandRequest.from_user
+
+    def from_user(name, arguments, instance_id):
+        USER_IIDS.add(instance_id)
+        return orig_from_user(name, arguments, instance_id)
+    CommandRequest.from_user = staticmethod(from_user)
+
+    orig_mark_cancelled = Tracking.mark_cancelled
+
+    def mark_cancelled(self, instance, update_node=True):
+        try:
+            return orig_mark_cancelled(self, instance, update_node)
+        except Exception as ex:
+            iid = getattr(instance, "instance_id", None)
+            rec = self.get_record_by_instance(instance)
+            CANCEL_MARK_FAILS.append((R.TICK[0], iid, rec.node_class_name if rec is not None else None, str(ex)[:120]))
+            raise
+    Tracking.mark_cancelled = mark_cancelled
+
+
+def reset_request_hooks():
+    USER_IIDS.clear()
+    CANCEL_MARK_FAILS.clear()
+
+
+REQS: list[tuple] = []      # (command-manager tick that dequeues it, name, instance_id, source)
+_sched_hook = False
+
+
+def install_schedule_hook():
+    """Record every CommandRequest handed to CommandManager.schedule together with the tick that will dequeue it."""
+    global _sched_hook
+    if _sched_hook:
+        return
+    _sched_hook = True
+    from openpectus.engine.command_manager import CommandManager
+    orig = CommandManager.schedule
+
+    def schedule(self, req):
+        clk = R._current_clock
+        in_tick = bool(clk is not None and clk.in_tick)
+        REQS.append((R.TICK[0] + (0 if in_tick else 1), req.name, req.instance_id, req.source))
+        return orig(self, req)
+    CommandManager.schedule = schedule
